@@ -44,40 +44,26 @@ def showStep (n : Nat) (o : StepObs) : String :=
   let ds := (List.range n).flatMap fun i => (o.dones.filter (·.1 == i)).map fun (_, r) => s!"{i}:{r}"
   s!"step:B[{b}]O[{outs}]R[{joinWith " " rs}]D[{joinWith " " ds}]"
 
-/-- run one event; `none` state = the history ended (processBatch returned an error) -/
-def runEvent (sv : Server) (now : Nat) : Event → String × Option Server
-  | .req keep np stops prompt =>
-    match newSequence sv.cache.numCtx prompt keep with
-    | .error _ => ("req:err:newseq", some sv)
-    | .ok (inputs, numKeep) =>
-      match sv.seqs.findIdx? (·.isNone) with
-      | none => ("req:err:noindex", some sv)
-      | some i =>
-        match loadCacheSlot sv.cache inputs now (canResumeV sv.crCounted sv.cache.window) with
-        | .error _ => ("req:err:load", some sv)
-        | .ok (c, si, rest) =>
-          let sq : Seq := { inputs := rest, pending := [], slot := si, numPredict := np, numPredicted := 0,
-                            numKeep := numKeep, stops := stops, pendingResp := [], iBatch := 0 }
-          let sv := { sv with cache := c, seqs := sv.seqs.set i (some sq) }
-          (s!"req:ok,i={i},slot={(getSlot c.slots si).id},rest={rest.length}", some sv)
-  | .busy prompt =>
-    match loadCacheSlot sv.cache prompt now (canResumeV sv.crCounted sv.cache.window) with
-    | .error .nilDeref => ("busy:panic", some sv)
-    | .error _ => ("busy:err", some sv)
-    | .ok (c, _, _) => ("busy:ok", some { sv with cache := c })
-  | .step adopt =>
-    if sv.seqs.all (·.isNone) then ("step:idle", some sv) else
-    match processBatch sv adopt with
-    | .error .badHint => ("step:bad-hint", none)
-    | .error _ => ("step:err", none)
-    | .ok (sv, o) => (showStep sv.seqs.length o, some sv)
+/-- format what `OllamaVerif.Runner.runEvent` (Model/Runner.lean) reports -/
+def showEv : EvOut → String
+  | .reqErrNewSeq => "req:err:newseq"
+  | .reqErrNoIndex => "req:err:noindex"
+  | .reqErrLoad => "req:err:load"
+  | .reqOk i sid rest => s!"req:ok,i={i},slot={sid},rest={rest}"
+  | .busyPanic => "busy:panic"
+  | .busyErr => "busy:err"
+  | .busyOk => "busy:ok"
+  | .idle => "step:idle"
+  | .badHint => "step:bad-hint"
+  | .stepErr => "step:err"
+  | .stepOk n o => showStep n o
 
 def runHist (sv : Server) : List Event → Nat → List String → List String
   | [], _, acc => acc.reverse
   | e :: es, now, acc =>
     match runEvent sv now e with
-    | (o, none) => (o :: acc).reverse
-    | (o, some sv') => runHist sv' es (now + 1) ((o ++ " {" ++ showState sv' ++ "}") :: acc)
+    | (o, none) => (showEv o :: acc).reverse
+    | (o, some sv') => runHist sv' es (now + 1) ((showEv o ++ " {" ++ showState sv' ++ "}") :: acc)
 
 /-! parsing -/
 
